@@ -154,20 +154,37 @@ def unit_rankings_unbounded(model):
     return _merge_canaries(recs)
 
 
-def unit_order(model, sizes, form, limit):
-    """form: relabel | scores | default"""
-    S = extract.Scratch(model)
+def unit_order(model, sizes, form, limit, generic=False):
+    """form: relabel | scores | default;  generic: sizes = (1,)*n, teams of symbolic size (pyvc/teams.py)"""
+    try:
+        return _unit_order(model, sizes, form, limit, generic)
+    except Exception as e:  # noqa: BLE001
+        from ..symrt import UncutLoop
+        if generic and isinstance(e, UncutLoop):
+            return [driver.rec(f"C03/{model}/rate/any-team-size/unbounded-proof@n={len(sizes)},{form}", "note", "explorer", 0, kind="note", fn=f"{model}.rate",
+                               shape=f"n={len(sizes)},any-team-size", note=f"not attempted: {e}")]
+        raise
+
+
+def _unit_order(model, sizes, form, limit, generic):
+    if generic:
+        from .. import teams as T
+        S = T.scratch(model)
+        mk_teams = lambda ctx, S_, sizes_: [T.SymTeam(ctx, S_.rating_cls, i) for i in range(len(sizes_))]
+    else:
+        S = extract.Scratch(model)
+        mk_teams = game.mk_teams
     game.stub_gauss_uninterpreted(S)
     n = len(sizes)
-    shape = f"sizes={sizes},limit_sigma={limit}"
+    shape = (f"sizes={sizes}" if not generic else f"n={n},any-team-size") + f",limit_sigma={limit}"
     fn = f"{model}.rate"
     ctx = Ctx("U")
 
     def run(ctx):
         mA, _ = game.mk_model(ctx, S, limit_sigma=limit)
         mB, _ = game.mk_model(ctx, S, limit_sigma=limit)
-        gA = game.mk_teams(ctx, S, sizes)
-        gB = game.mk_teams(ctx, S, sizes)
+        gA = mk_teams(ctx, S, sizes)
+        gB = mk_teams(ctx, S, sizes)
         if form == "relabel":
             r = [ctx.number(f"r{i}") for i in range(n)]
             q = [ctx.number(f"q{i}") for i in range(n)]
@@ -198,10 +215,10 @@ def unit_order(model, sizes, form, limit):
         nm = {"relabel": "order-only", "scores": "scores-negation", "default": "default-ranks"}[form]
         ok = game.compare_outcomes(ra, rb) if ra[0] == "return" else z3.BoolVal(False)
         ctx.oblige(f"C03/{model}/rate/{nm}@{shape}", ok, meta={"replay": mk, "fn": fn, "shape": shape})
-        if form == "relabel" and sizes == (1, 1) and not limit:
+        if form == "relabel" and sizes == (1, 1) and not limit and not generic:
             # canary: "the rank values do not matter at all"
             mC, _ = game.mk_model(ctx, S, limit_sigma=limit)
-            rc = call(mC.rate, game.mk_teams(ctx, S, sizes))
+            rc = call(mC.rate, mk_teams(ctx, S, sizes))
             ctx.oblige(f"C03/{model}/rate/canary-ranks-irrelevant", game.compare_outcomes(ra, rc), kind="canary",
                        meta={"replay": lambda md: dict(mk(md), b={}), "fn": fn})
     explore(ctx, run)
@@ -244,6 +261,11 @@ def units(tier):
             for form in ("relabel", "scores", "default"):
                 for limit in ((False, True) if len(s) <= 2 else (False,)):
                     us.append(("unit_order", (m, s, form, limit)))
+        # teams of every size (symbolic member counts; float sums over a team are opaque in U-mode)
+        for n in ((2, 3) if tier == "quick" else (2, 3, 4)):
+            for form in ("relabel", "scores", "default"):
+                us.append(("unit_order", (m, (1,) * n, form, False, True)))
+        us.append(("unit_order", (m, (1, 1), "relabel", True, True)))
     return us
 
 
